@@ -1,10 +1,10 @@
 package specgen
 
 import (
-	"time"
 	"fmt"
 	"sort"
 	"strings"
+	"time"
 
 	"pgregory.net/rapid"
 )
@@ -77,6 +77,29 @@ func (c *Ctx) SafeName(prefix string, label string) string {
 		return fmt.Sprintf("%s%s%dx", prefix, strings.Title(stem), n)
 	default:
 		return fmt.Sprintf("%s-%s%d", prefix, stem, n)
+	}
+}
+
+// QueryName is SafeName plus the name shapes that are ordinary in query strings and
+// need escaping on the wire ($top, filter[status], ids[], a space, a non-ASCII letter).
+func (c *Ctx) QueryName(prefix, label string) string {
+	if rapid.IntRange(0, 3).Draw(c.T, label+"_query_shape") != 0 {
+		return c.SafeName(prefix, label)
+	}
+	stem := rapid.SampledFrom(stems).Draw(c.T, label+"_stem")
+	n := c.next()
+	c.Tag("param:query-name-needs-escaping")
+	switch rapid.IntRange(0, 4).Draw(c.T, label+"_qshape") {
+	case 0:
+		return fmt.Sprintf("$%s%s%d", prefix, stem, n)
+	case 1:
+		return fmt.Sprintf("%s%s%d[]", prefix, stem, n)
+	case 2:
+		return fmt.Sprintf("%s%d[%s]", prefix, n, stem)
+	case 3:
+		return fmt.Sprintf("%s %s%d", prefix, stem, n)
+	default:
+		return fmt.Sprintf("%s\u00e9%s%d", prefix, stem, n)
 	}
 }
 
